@@ -1228,13 +1228,22 @@ class Table:
         manifest (list) raises instead of returning partial/empty results -
         readers must be able to distinguish "empty table" from "broken table".
         """
-        snapshot = self.current_snapshot()
+        # ONE metadata read decides everything below. Resolving the snapshot
+        # with one read and the "is the id set?" question with a second one let
+        # a writer's first commit land in between: the reader then raised
+        # "inconsistent metadata" on a table that was consistent throughout.
+        metadata = self.metadata_manager.refresh()
+        current_id = metadata.current_snapshot_id if metadata else None
+        snapshot = None
+        if metadata is not None and current_id is not None:
+            for candidate in metadata.snapshots:
+                if candidate.snapshot_id == current_id:
+                    snapshot = candidate
+                    break
         if not snapshot:
             # An unset current_snapshot_id means "empty table". A SET id that
             # resolves to nothing means the metadata is inconsistent - returning
             # [] there would report a broken table as an empty one (#48).
-            metadata = self.metadata_manager.refresh()
-            current_id = metadata.current_snapshot_id if metadata else None
             if current_id is not None and current_id != -1:
                 raise RuntimeError(
                     f"Table metadata is inconsistent: current_snapshot_id {current_id} "
